@@ -80,4 +80,51 @@ if "in.message.text.with_skdm" not in c.BY_NAME:
         return cls(v["id"], v["jid"], v["reg"], v["t"], count=v["count"], participant=v["participant"])
     c._out("out.receipt.retry", "AxolotlReceivelayer", "yowsup.layers.axolotl.protocolentities.receipt_outgoing_retry.RetryOutgoingReceiptProtocolEntity",
            "receipt", _retry_out_draw, _retry_out_node, _retry_out_entity, notes="axolotl-state")
+    # media messages that also carry a sender key distribution (the re-send a group member gets after asking for a retry): the
+    # entity keeps the whole payload, so its serialisation must still carry both
+    def _with_skdm(pb_of):
+        def f(rng, variant):
+            m = pb_of(rng, variant)
+            m.sender_key_distribution_message.group_id = c.gen_gjid(rng)
+            m.sender_key_distribution_message.axolotl_sender_key_distribution_message = c.gen_bytes(rng, 40, 80)
+            return m
+        return f
+    c._media("in.message.media.image.with_skdm", c._IMG, "image", _with_skdm(lambda rng, v: c.pb_image(c.draw_image(rng))))
+    c._media("in.message.media.location.with_skdm", c._LOC, "location", _with_skdm(lambda rng, v: c.pb_location(c.draw_location(rng))))
     c.BY_NAME.update({k.name: k for k in c.KINDS})
+
+
+def keys_result_node(rng):
+    """<iq type=result><list><user jid=..><registration/><type/><identity/><skey><id/><value/><signature/></skey><key><id/><value/></key></user>*</list></iq>
+    in the byte widths the entity itself writes (4-byte numbers), with valid curve points."""
+    from axolotl.ecc.curve import Curve
+    users = []
+    for _ in range(rng.randint(1, 3)):
+        pub = lambda: bytes(Curve.generateKeyPair().getPublicKey().getPublicKey())
+        num = lambda: bytes(bytearray(rng.randint(0, 255) for _ in range(4)))
+        users.append(c.N("user", {"jid": c.gen_jid(rng)}, [
+            c.N("registration", {}, None, num()), c.N("type", {}, None, b"\x00\x00\x00\x05"), c.N("identity", {}, None, pub()),
+            c.N("skey", {}, [c.N("id", {}, None, num()), c.N("value", {}, None, pub()), c.N("signature", {}, None, c.gen_bytes(rng, 64, 64))]),
+            c.N("key", {}, [c.N("id", {}, None, num()), c.N("value", {}, None, pub())])]))
+    return c.N("iq", {"type": "result", "from": c.DOMAIN, "id": c.gen_id(rng)}, [c.N("list", {}, users)])
+
+
+# kinds whose exact round trip is not judged (state-dependent or width-normalising) but whose entities must still be independent of
+# each other: (name, entity class path, node builder)
+ISOLATION_ONLY = [("in.iq.result.encrypt.keys", "yowsup.layers.axolotl.protocolentities.iq_keys_get_result.ResultGetKeysIqProtocolEntity", keys_result_node)]
+
+
+def enc_message_nodes(rng, sizes):
+    """Encrypted message envelopes as the send layer builds them, with ciphertext lengths around the codec's length-class boundaries."""
+    from yowsup.layers.axolotl.protocolentities import EncryptedMessageProtocolEntity, EncProtocolEntity
+    from yowsup.layers.protocol_messages.protocolentities.attributes.attributes_message_meta import MessageMetaAttributes
+    out = []
+    for n in sizes:
+        for typ, media in (("msg", None), ("pkmsg", "image"), ("skmsg", None)):
+            data = bytes(bytearray(rng.randint(0, 255) for _ in range(n)))
+            if data.endswith(b"@"):
+                data = data[:-1] + b"A"
+            e = EncryptedMessageProtocolEntity([EncProtocolEntity(typ, 2, data, media)], "text" if media is None else "media",
+                                               MessageMetaAttributes(id=c.gen_id(rng), recipient=c.gen_jid(rng)))
+            out.append(("out.message.enc.%s.%d" % (typ, n), e.toProtocolTreeNode()))
+    return out
